@@ -15,6 +15,10 @@ pub fn case_keys(scheme: &str, rng: &mut Rng) -> (Vec<Vec<u8>>, Kind) {
     let kind = kind_for(scheme, rng);
     let k0 = IndKey::gen(rng, kind);
     let mut k1 = IndKey::gen(rng, kind);
+    if kind == Kind::Secp && rng.chance(1, 4) {
+        // the "other" key is the negation of the own key (same x coordinate)
+        k1 = IndKey { kind, sk: secp_neg(&k0.sk) };
+    }
     while k1.public() == k0.public() {
         k1 = IndKey::gen(rng, kind);
     }
@@ -236,9 +240,11 @@ pub fn rand_step(rng: &mut Rng, valid_pub: &[Vec<u8>]) -> String {
             }
         ),
         14 => format!(
-            "step op=set_udp_socket ip={} port={}",
+            "step op=set_udp_socket ip={} port={} scope={} flow={}",
             hx(&if rng.chance(1, 2) { rand_ip4(rng) } else { rand_ip6(rng) }),
-            rand_port(rng)
+            rand_port(rng),
+            if rng.chance(1, 3) { rng.below(1 << 32) } else { 0 },
+            if rng.chance(1, 3) { rng.below(1 << 20) } else { 0 }
         ),
         15 => format!(
             "step op=set_tcp_socket ip={} port={}",
@@ -320,6 +326,8 @@ pub fn rep_steps(valid_pub: &[Vec<u8>], small: bool) -> Vec<String> {
         "step op=set_udp_socket ip=00000000000000000000ffffc0000201 port=9000".into(),
         "step op=set_tcp_socket ip=00000000000000000000ffff7f000001 port=65535".into(),
         "step op=set_ip ip=00000000000000000000ffff0a000001".into(),
+        "step op=set_udp_socket ip=fe800000000000000000000000000001 port=9000 scope=3 flow=0".into(),
+        "step op=set_tcp_socket ip=20010db8000000000000000000000002 port=443 scope=0 flow=74565".into(),
         "step op=insert_raw key=6964 raw=82763400".into(),
         "step op=insert_raw key=6964 raw=8276348269708401020304".into(),
         "step op=insert_raw key=746370 raw=82765f82765f".into(),
@@ -683,6 +691,46 @@ pub fn gen_size(schemes: &[&str], rng: &mut Rng, thorough: bool, cases: &mut Vec
                 }
             }
         }
+        // a custom scheme with signatures of 0, 1 or 2 bytes (a one-byte signature below 0x80 is its
+        // own RLP encoding, one from 0x80 up takes two bytes): updates at the size limit
+        if *scheme == "toy" {
+            for (base, spread) in [(0u8, 0u8), (1, 0), (0, 1), (1, 1), (2, 0), (0, 2)] {
+                for _rep in 0..(if thorough { 6 } else { 2 }) {
+                    let tk = vec![base, spread, rng.next() as u8, rng.next() as u8];
+                    // the builder is conservative near the limit, so the record is built at about 288
+                    // bytes and grown to 296..=301 by a first insertion (`grow` extra bytes)
+                    for grow in 0..=14usize {
+                      for pad in 244..=246usize {
+                        for st in [
+                            "step op=set_udp4 port=30303",
+                            "step op=set_udp_socket ip=c0a80001 port=30303",
+                            "step op=insert key=7a vt=bytes val=78",
+                            "step op=set_seq seq=77",
+                        ] {
+                            let mut c = Case::new("size", scheme, id, "toy-short-signature");
+                            id += 1;
+                            c.keys = vec![tk.clone(), keys[1].clone(), keys[2].clone()];
+                            c.lines.push(format!(
+                                "init kind=build calls=seq:{};raw:706164:{};udp4:30303;ip4:c0a80001;raw:7a:78 signer=0",
+                                rng.pick(&[5u64, 127, 255]),
+                                hx(&rlp_bytes(&vec![0x61; pad]))
+                            ));
+                            c.lines.push(with_signer(
+                                &format!("step op=insert key=7a7a vt=bytes val={}", hx(&vec![0x62; grow])),
+                                0,
+                                false,
+                            ));
+                            c.lines.push(with_signer(st, 0, false));
+                            c.lines.push(with_signer(st, 0, false));
+                            c.lines.push(with_signer(st, 0, false));
+                            c.lines.push(with_signer(st, 0, false));
+                            cases.push(c);
+                        }
+                      }
+                    }
+                }
+            }
+        }
         // builder with a custom scheme: signature lengths that put header-length boundaries (55/56,
         // 255/256 bytes of content or of content + signature) right at the size limit
         if *scheme == "toy" {
@@ -743,8 +791,10 @@ pub fn gen_acc(schemes: &[&str], rng: &mut Rng, thorough: bool, cases: &mut Vec<
             id += 1;
             c.keys = keys.clone();
             let p = |i: usize| chunk[i % chunk.len()];
+            // (the sequence number coincides with one of the ports)
             c.lines.push(format!(
-                "init kind=build calls=tcp4:{};tcp6:{};udp4:{};udp6:{} signer=0",
+                "init kind=build calls=seq:{};tcp4:{};tcp6:{};udp4:{};udp6:{} signer=0",
+                p(0),
                 p(0),
                 p(1),
                 p(2),
@@ -828,6 +878,26 @@ pub fn gen_acc(schemes: &[&str], rng: &mut Rng, thorough: bool, cases: &mut Vec<
             c.lines.push("step op=redecode".into());
             cases.push(c);
         }
+        // the client list wrapped in a string header / in another list / with trailing bytes in the list
+        for raw in [
+            rlp_bytes(&rlp_list(&[rlp_bytes(b"a"), rlp_bytes(b"b")].concat())),
+            rlp_bytes(&rlp_list(&[rlp_bytes(b"a"), rlp_bytes(b"b"), rlp_bytes(b"c")].concat())),
+            rlp_list(&rlp_list(&[rlp_bytes(b"a"), rlp_bytes(b"b")].concat())),
+            rlp_list(&[rlp_bytes(b"a"), rlp_list(&rlp_bytes(b"b"))].concat()),
+            rlp_list(&[rlp_bytes(b"a"), rlp_uint(300), rlp_bytes(b"")].concat()),
+        ] {
+            let mut c = Case::new("acc", scheme, id, "client-wrapped");
+            id += 1;
+            c.keys = keys.clone();
+            c.lines.push("init kind=build calls=- signer=0".into());
+            c.lines.push(with_signer(
+                &format!("step op=insert_raw key=636c69656e74 raw={}", hx(&raw)),
+                0,
+                false,
+            ));
+            c.lines.push("step op=redecode".into());
+            cases.push(c);
+        }
         // arbitrary raw values under typed keys and client info
         for _ in 0..(if thorough { 400 } else { 60 }) {
             let mut c = Case::new("acc", scheme, id, "raw");
@@ -865,7 +935,16 @@ pub fn gen_acc(schemes: &[&str], rng: &mut Rng, thorough: bool, cases: &mut Vec<
                         }
                         rlp_list(&p)
                     }
-                    0 => rlp_list(&[rlp_bytes(&ascii_word(rng)), rlp_bytes(&ascii_word(rng))].concat()),
+                    // a value that is itself the encoding of something of the right type, wrapped once more
+                    0 => {
+                        let inner = match rng.below(4) {
+                            0 => rlp_list(&[rlp_bytes(b"a"), rlp_bytes(b"b")].concat()),
+                            1 => rlp_uint(rand_port(rng)),
+                            2 => rlp_bytes(&rand_ip4(rng)),
+                            _ => rlp_bytes(b"v4"),
+                        };
+                        if rng.chance(1, 2) { rlp_bytes(&inner) } else { rlp_list(&inner) }
+                    }
                     1 => rlp_list(
                         &[
                             rlp_bytes(&ascii_word(rng)),
@@ -906,6 +985,45 @@ pub fn gen_acc(schemes: &[&str], rng: &mut Rng, thorough: bool, cases: &mut Vec<
 pub fn gen_eq(schemes: &[&str], rng: &mut Rng, thorough: bool, cases: &mut Vec<Case>) {
     let mut id = 0u64;
     for scheme in schemes {
+        // two valid records with the same sequence number, public key AND signature but different
+        // pairs: possible under the neutral-element ed25519 key, whose signature R = identity, s = 0
+        // verifies for every content
+        if *scheme == "ed" || *scheme == "comb" {
+            let mut ident = vec![0u8; 32];
+            ident[0] = 1;
+            let mut sig = vec![0u8; 64];
+            sig[0] = 1;
+            let rec = |udp: u64, extra: bool| {
+                let mut pairs = vec![
+                    (b"id".to_vec(), rlp_bytes(b"v4")),
+                    (b"ed25519".to_vec(), rlp_bytes(&ident)),
+                    (b"udp".to_vec(), rlp_uint(udp)),
+                ];
+                if extra {
+                    pairs.push((b"zz".to_vec(), rlp_bytes(b"x")));
+                }
+                let items = crate::gen_dec::sorted_items(pairs);
+                let mut content = rlp_uint(9);
+                for (k, v) in &items {
+                    content.extend_from_slice(k);
+                    content.extend_from_slice(v);
+                }
+                let mut p = rlp_bytes(&sig);
+                p.extend_from_slice(&content);
+                rlp_list(&p)
+            };
+            let (keys, _) = case_keys(scheme, rng);
+            for (a, b) in [(rec(30303, false), rec(30304, false)), (rec(1, false), rec(1, true)), (rec(5, true), rec(5, true))] {
+                let mut c = Case::new("eq", scheme, id, "same-signature-different-content");
+                id += 1;
+                c.keys = keys.clone();
+                c.lines.push(format!("init kind=decode buf={}", hx(&a)));
+                c.lines.push("step op=snap slot=a".into());
+                c.lines.push(format!("step op=setcur buf={}", hx(&b)));
+                c.lines.push("step op=cmp slot=a".into());
+                cases.push(c);
+            }
+        }
         for _ in 0..(if thorough { 200 } else { 40 }) {
             let (keys, _) = case_keys(scheme, rng);
             let mut c = Case::new("eq", scheme, id, "pairs");
